@@ -31,6 +31,13 @@ func (s *Service) MigrateTopicStoreV1V2() (rErr error) {
 	}
 
 	backup := s.StorageService.Path() + TopicStoreBackupSuffix
+	// A backup left behind by a migration that was interrupted (process killed, power loss)
+	// is stale: the Bolt transactions of the migration are atomic, so the database itself is
+	// consistent and the migration simply runs again.  Remove it, otherwise the exclusive
+	// create in CopyFile fails and the service can never be opened again.
+	if rmErr := os.Remove(backup); rmErr != nil && !os.IsNotExist(rmErr) {
+		return fmt.Errorf("cannot remove stale v1 topic store backup %q: %w", backup, rmErr)
+	}
 	var n int64
 	if n, err = CopyFile(s.StorageService.Path(), backup); err != nil {
 		return fmt.Errorf("cannot backup v1 topic store: %w", err)
